@@ -329,8 +329,21 @@ def events(b, rng, exp, ver, players, vehicles, consts):
     deaths, ach, ribbons, shots, dmg, planes_list, planes_count = [], {}, {}, {}, {}, [], {}
     by_id = exp['players']
 
-    def roster_message(meth, force_all=False):
-        pl = rng.choice(players)
+    sent_rosters = []
+
+    def resend_roster(which):
+        """an earlier roster message again, byte for byte (a repeated message is merged again like any other)"""
+        meth0, args0, kinds0 = which
+        if b.call(AVATAR_ID, meth0, args0):
+            for kind in ('player', 'bot', 'observer'):
+                for row in kinds0.get(kind, []):
+                    by_id.setdefault(row['id'], {}).update(row)
+                    b.trace.append(['roster', row['id'], [[k, json.dumps(v)] for k, v in row.items()]])
+
+    def roster_message(meth, force_all=False, pl=None):
+        if not force_all and pl is None and sent_rosters and rng.random() < 0.25:
+            return resend_roster(rng.choice(sent_rosters))
+        pl = pl or rng.choice(players)
         upd = {'id': pl['id'], 'maxHealth': rng.randint(1, 99999), 'name': rng.choice(['Zed', 'Ωmega', 'Q'])}
         m = b.method_def('Avatar', meth)
         # the roster messages carry up to three lists (players, bots, observers), each with its own index -> name table
@@ -365,6 +378,7 @@ def events(b, rng, exp, ver, players, vehicles, consts):
                         args[key] = blob([])
                     first_blob = False
             if b.call(AVATAR_ID, meth, args):
+                sent_rosters.append((meth, dict(args), {k: [dict(r) for r in v] for k, v in kinds.items()}))
                 for kind in ('player', 'bot', 'observer'):          # the order in which the controllers merge the three lists
                     for row in kinds.get(kind, []):
                         by_id.setdefault(row['id'], {}).update(row)
@@ -497,6 +511,16 @@ def events(b, rng, exp, ver, players, vehicles, consts):
     # every battle ends with one roster message of each kind carrying all three lists
     for meth in ('onGameRoomStateChanged', 'onNewPlayerSpawnedInBattle'):
         roster_message(meth, force_all=True)
+    # ... and for each kind: a message about one player, a message of the *other* kind about the same player (other values), and the
+    # first message again, byte for byte -- a repeated message is merged again like any other, it is not a no-op
+    for meth, other in (('onGameRoomStateChanged', 'onNewPlayerSpawnedInBattle'), ('onNewPlayerSpawnedInBattle', 'onGameRoomStateChanged')):
+        pl = rng.choice(players)
+        n0 = len(sent_rosters)
+        roster_message(meth, pl=pl)
+        if len(sent_rosters) > n0:
+            first = sent_rosters[-1]
+            roster_message(other, pl=pl)
+            resend_roster(first)
     exp.update({'death_map': deaths, 'achievements': ach, 'shots_damage_map': shots, 'damage_map': dmg})
     if ver <= (0, 11, 11):
         exp['ribbons'] = ribbons
